@@ -301,6 +301,10 @@ func c15Job(shard, nshards int, tier string) Job {
 						w.pm.Run()
 						if mode == "restart" {
 							w.newManager()
+							if len(states[ai].C.Policies) == 0 {
+								// a daemon that starts while no policy exists has not started its pod informer
+								w.newManagerNotStarted(states[ai].C)
+							}
 						}
 						w.setCluster(states[ai].C)
 						k.Cmds, k.Rejected = nil, nil
